@@ -35,3 +35,4 @@ CLAIM = dict(
 )
 
 CLAIM["text"] += ' Operands may be infinite (equal infinities are equal), and fixed cases cover a zero tolerance written without a unit and lists of different lengths.'
+CLAIM["text"] += " The model of assert_eq/3 follows numbat's repair 0551bf6 (epsNorm: a zero tolerance without a unit is brought into the unit of an operand): assert_eq3_iff holds for every tolerance that has a unit or is not zero, assert_eq3_unitless_zero / assert_eq3_unitless_zero_iff say that with the unit-less zero the assertion succeeds iff a and b are the same physical quantity; one generated tolerance in sixteen is the unit-less zero (bit-exact correspondence)."
